@@ -392,6 +392,11 @@ func (sc *srvScen) nodeListQueries(n int) {
 	// populate: good (answered), questionable (aged), never-responded, bad
 	buckets := []int{0, 0, 0, 0, 1, 1, 1, 2, 2, 3, 4, 6, 10}
 	var ids [][20]byte
+	type knownC struct {
+		id   [20]byte
+		addr *net.UDPAddr
+	}
+	var answeredOnce []knownC
 	for i := 0; i < 30+r.Intn(30) && !sc.dead; i++ {
 		id := sc.idInBucket(buckets[r.Intn(len(buckets))])
 		addr := sc.freshSrc([]int{0, 0, 1, 2}[r.Intn(4)])
@@ -406,12 +411,26 @@ func (sc *srvScen) nodeListQueries(n int) {
 			}
 		default:
 			sc.respondingNode(addr, id, false)
+			answeredOnce = append(answeredOnce, knownC{id, addr})
 			if r.Intn(6) == 0 {
 				sc.failPing(addr, id) // bad
+				sc.failedSince[hx(id[:])+"@"+dht.NewAddr(addr).String()] = true
+				if r.Intn(2) == 0 {
+					// a bad contact sends us a query: it can send, which says nothing about it being reachable
+					sc.send(addr, sc.mkQuery([]string{"ping", "find_node"}[r.Intn(2)], id, sc.r.randID()))
+					sc.r.hist("populate/query-from-contact-that-failed-its-ping")
+				}
 			}
 		}
 		if r.Intn(15) == 0 {
 			sc.advance([]time.Duration{10 * time.Minute, 16 * time.Minute}[r.Intn(2)])
+			// after the pause some old contacts answer again (they are good again; their buckets did not change)
+			for j := 0; j < 3 && len(answeredOnce) > 0; j++ {
+				k := answeredOnce[r.Intn(len(answeredOnce))]
+				sc.respondingNode(k.addr, k.id, false)
+				delete(sc.failedSince, hx(k.id[:])+"@"+dht.NewAddr(k.addr).String())
+				sc.r.hist("populate/old-contact-answers-again-after-a-pause")
+			}
 		}
 	}
 	sc.emitTable()
@@ -500,6 +519,9 @@ func (sc *srvScen) oracleNodeLists(src *net.UDPAddr, q *qspec, target [20]byte, 
 			}
 			if !n.HasResponse {
 				sc.viol("C09", "reply lists a contact that never answered a query")
+			}
+			if sc.failedSince[hx(n.Id[:])+"@"+n.Addr] {
+				sc.viol("C09", "reply lists a contact that failed its last ping and has not answered any query since: "+hx(n.Id[:4])+"@"+n.Addr)
 			}
 			if !sc.answered[hx(n.Id[:])+"@"+n.Addr] {
 				// judged from what the harness really did, not from the table's own flag
